@@ -215,9 +215,19 @@ impl<'a> Interp<'a> {
         let cfg = case.cfg.clone();
         let w2 = world.clone();
         let built = it.sched.run_inline(build_op, move || {
-            let mut b = Pool::builder(Mgr { world: w2.clone() })
-                .max_size(cfg.max_size as usize)
-                .queue_mode(if cfg.lifo { QueueMode::Lifo } else { QueueMode::Fifo });
+            let qm = if cfg.lifo { QueueMode::Lifo } else { QueueMode::Fifo };
+            let pc = deadpool::managed::PoolConfig {
+                max_size: cfg.max_size as usize,
+                timeouts: Timeouts::default(),
+                queue_mode: qm,
+            };
+            let mut b = Pool::builder(Mgr { world: w2.clone() });
+            b = match cfg.via % 4 {
+                0 => b.max_size(cfg.max_size as usize).queue_mode(qm),
+                1 => b.queue_mode(qm).max_size(cfg.max_size as usize),
+                3 => b.config(pc),
+                _ => b,
+            };
             for (i, k) in cfg.post_create.iter().enumerate() {
                 b = b.post_create(mk_hook(&w2, *k, CallKind::PostCreate(i as u8)));
             }
@@ -226,6 +236,9 @@ impl<'a> Interp<'a> {
             }
             for (i, k) in cfg.post_recycle.iter().enumerate() {
                 b = b.post_recycle(mk_hook(&w2, *k, CallKind::PostRecycle(i as u8)));
+            }
+            if cfg.via % 4 == 2 {
+                b = b.config(pc);
             }
             b.build()
         });
